@@ -878,6 +878,9 @@ def _parse_request_range(
     (None, None)
     >>> _parse_request_range("foo=42")
     >>> _parse_request_range("bytes=1-2,6-10")
+    >>> _parse_request_range("bytes=+1-2")
+    >>> _parse_request_range("bytes=--5")
+    >>> _parse_request_range("bytes=1_0-")
 
     Note: only supports one range (ex, ``bytes=1-2,6-10`` is not allowed).
 
@@ -886,7 +889,7 @@ def _parse_request_range(
     [0]: http://greenbytes.de/tech/webdav/draft-ietf-httpbis-p5-range-latest.html#byte.ranges
     """
     unit, _, value = range_header.partition("=")
-    unit, value = unit.strip(), value.strip()
+    unit, value = unit.strip(HTTP_WHITESPACE), value.strip(HTTP_WHITESPACE)
     if unit != "bytes":
         return None
     start_b, _, end_b = value.partition("-")
@@ -921,9 +924,13 @@ def _get_content_range(start: int | None, end: int | None, total: int) -> str:
 
 
 def _int_or_none(val: str) -> int | None:
-    val = val.strip()
+    val = val.strip(HTTP_WHITESPACE)
     if val == "":
         return None
+    if not (val.isascii() and val.isdigit()):
+        # int() is more lenient than the byte-range grammar (RFC 9110 section 14.1.1):
+        # it accepts signs, underscores, non-ASCII digits and surrounding unicode whitespace.
+        raise ValueError("invalid byte position %r" % val)
     return int(val)
 
 
